@@ -213,6 +213,7 @@ type FnRun struct {
 	spawned map[string]bool
 	blockingNoDone []string
 	rootOf map[string]string
+	lockCands []string
 }
 
 func (r *FnRun) fresh(prefix, sort string) string {
